@@ -327,6 +327,105 @@ def op_table():
                 tr(P, kind, i, 0 if use_uni else -1, rng.randint(0, 2), rng.randint(0, 2), rng.randint(0, 3), rng.randint(0, 3))
                 se(P, kind, i, 0 if use_uni else -1, rng.randint(0, 2), rng.randint(0, 4))
 
+    @reg("whitelist_snapshot", 2, "snapshot")
+    def _(P, k, deep):
+        """C12 / C19: the edge_whitelist given to UniverseLaws is copied (bounded stand-in: that constructor's contract is trusted)"""
+        E = P.eg
+        inner = {E["Vertex"]: E["DirectedEdge"]}
+        rules = {E["Vertex"]: inner}
+        L = E["UniverseLaws"](edge_whitelist=rules)
+        want = {a: dict(b) for a, b in rules.items()}
+        if deep % 2:
+            inner[E["Universe"]] = E["UnDirectedEdge"]
+            inner[E["Vertex"]] = E["UnDirectedEdge"]
+        else:
+            rules[E["Universe"]] = {}
+            rules.pop(E["Vertex"], None) if k % 2 else None
+        got = L.edge_whitelist
+        if {a: dict(b) for a, b in got.items()} != want:
+            raise PropertyViolation("C12/C19: mutating the dictionary passed as edge_whitelist changed the law set")
+        try:
+            got[E["Vertex"]] = {}
+            raise PropertyViolation("C12: edge_whitelist handed out a mutable mapping")
+        except TypeError:
+            pass
+
+    @reg("mutate_accessor_result", 2, "snapshot")
+    def _(P, i, which):
+        """C12: containers handed out by accessors are detached"""
+        o = (P.V + P.U)[i % len(P.V + P.U)]
+        before = observable(P)
+        r = [o.universes, P.U[0].vertices, list(o.links)][which % 3]
+        if isinstance(r, tuple):
+            raise PropertyViolation("unexpected")
+        r.append(P.V[0])
+        r.reverse()
+        r.clear()
+        if observable(P) != before:
+            raise PropertyViolation("C12: mutating a list returned by an accessor changed the graph")
+
+    @reg("mutate_ctor_argument", 3, "snapshot")
+    def _(P, i, j, which):
+        """C12: collections passed to constructors are copied"""
+        E = P.eg
+        if which % 3 == 0:
+            us = [P.U[i % len(P.U)]]
+            v = E["Vertex"](universes=us)
+            P.V.append(v)
+            before = observable(P)
+            us.append(P.U[j % len(P.U)])
+            us.clear()
+        elif which % 3 == 1:
+            vs = [P.vert(i) or P.V[0]]
+            u = E["Universe"](vertices=vs)
+            P.U.append(u)
+            P.W.append(u.laws)
+            before = observable(P)
+            vs.append(P.V[1])
+            vs.clear()
+        else:
+            at = {"color": [1, 2]}
+            v = E["Vertex"](attributes=at)
+            P.V.append(v)
+            before = observable(P)
+            at["extra"] = 1
+            del at["color"]
+        if observable(P) != before:
+            raise PropertyViolation("C12: mutating a collection after passing it to a constructor changed the object built from it")
+
+    @reg("render", 4, "render")
+    def _(P, kind, u, fault_at, sortk):
+        """a read-only output operation, with a user callback that raises at its `fault_at`-th invocation (0 = never):
+        however it ends, every vertex, link and universe must be observably unchanged (C13)"""
+        uni = P.U[u % len(P.U)]
+        count = [0]
+
+        def cb(*a):
+            count[0] += 1
+            if fault_at > 0 and count[0] == fault_at:
+                raise UserFault("injected")
+            return "x%d" % (count[0] % 3)
+        before = observable(P)
+        kind = kind % 4
+        try:
+            if kind == 0:
+                P.mods["plaintext"].basic_render(uni, rfunc=cb if fault_at >= 0 else None, sort=(lambda v: id(v)) if sortk % 2 else None)
+            elif kind == 1 and "pyvis" in P.mods:
+                P.mods["pyvis"].make_pyvis_net(uni, rvfunc=cb if fault_at % 2 == 0 else None, refunc=cb if fault_at >= 0 else None)
+            elif kind == 2 and "plantuml" in P.mods:
+                opts = dict(P.mods["plantuml"].PLANTUML_RENDER_OPTIONS)
+                P.mods["plantuml"].render_to_plantuml_src(uni, opts)
+            elif kind == 3 and "nrpickler" in P.mods:
+                P.mods["nrpickler"].dumps(uni)
+        except UserFault:
+            pass
+        except (NotImplementedError, IndexError, AttributeError, ValueError, AssertionError, TypeError, KeyError):
+            pass
+        after = observable(P)
+        if before != after:
+            diff = [k for k in before if before[k] != after.get(k)] + [k for k in after if k not in before]
+            raise PropertyViolation(f"C13: a read-only operation (kind {kind}) changed the graph: {diff[:4]}")
+
     @reg("set_tag", 2, "traverse")
     def _(P, i, t):
         v = P.vert(i)
@@ -347,6 +446,24 @@ def op_table():
         elif isinstance(r, set):
             r.clear()
     return T
+
+
+def observable(P):
+    """the public observables of every object of the pool: ordered links / ends / members / universes, laws, attribute dict"""
+    out = {}
+    allo = P.V + P.U + P.L
+    idx = {id(o): k for k, o in enumerate(allo)}
+
+    def nm(o):
+        return idx.get(id(o), ("ext", id(o))) if o is not None else None
+    for k, o in enumerate(allo):
+        d = o.__dict__
+        out[(k, "links")] = tuple(nm(x) for x in d.get("_links", ()))
+        out[(k, "ends/members")] = tuple(nm(x) for x in d.get("_vertices", ()))
+        out[(k, "universes")] = tuple(nm(x) for x in d.get("_universes", ()))
+        out[(k, "uid")] = d.get("_uid")
+        out[(k, "attrs")] = tuple(sorted((a, repr(v)) for a, v in d.items() if not a.startswith("_") or a.startswith("__make")))
+    return out
 
 
 class RefAbort(Exception):
@@ -491,10 +608,10 @@ def oracle_C05(P):
 
 ORACLES = {"C01": oracle_C01, "C02": oracle_C02, "C19": oracle_C19}
 GROUPS = {
-    "C01": ("assoc", "explicit"), "C02": ("member",), "C03": ("assoc", "explicit", "member"), "C19": ("laws",),
+    "C01": ("assoc", "explicit"), "C02": ("member",), "C03": ("assoc", "explicit", "member"), "C19": ("laws", "snapshot"),
     "C04": ("assoc", "explicit", "query"), "C09": ("assoc", "explicit", "query"),
-    "C05": ("assoc", "explicit", "cache", "query"), "C12": ("assoc", "member", "laws", "cache", "query"),
-    "C13": ("assoc", "explicit", "query", "cache"),
+    "C05": ("assoc", "explicit", "cache", "query"), "C12": ("assoc", "member", "laws", "cache", "query", "snapshot"),
+    "C13": ("assoc", "explicit", "member", "render", "query"),
     "C06": ("assoc", "explicit", "member", "traverse"), "C07": ("assoc", "explicit", "member", "traverse"),
     "C08": ("assoc", "explicit", "member", "traverse"),
 }
@@ -507,6 +624,14 @@ def fresh_world(repo_root, only=None):
     for m in ("explicit",):
         try:
             mods[m] = importlib.import_module("edgegraph.builder." + m)
+        except Exception:
+            pass
+    vsp = "/venv/lib/python3.12/site-packages"
+    if os.path.isdir(vsp) and vsp not in sys.path:
+        sys.path.append(vsp)          # pure-python third-party packages of the repository's own environment (pyvis, dill)
+    for m in ("plaintext", "pyvis", "plantuml", "nrpickler"):
+        try:
+            mods[m] = importlib.import_module("edgegraph.output." + m)
         except Exception:
             pass
     for m in ("breadthfirst", "depthfirst"):
